@@ -318,3 +318,15 @@ ITEMS += [
     _marker_fragment('impl Snippet/fn fmt_or_fallback', 'Snippet::fmt_or_fallback#marker', 'self.source.text', 'relative_row', r'return fmt_with_location\(f, l10n, msg, location\);'),
     _marker_fragment('fn fmt_snippet_window_with_mapping_or_fallback', 'fmt_snippet_window_with_mapping_or_fallback#marker', 'text', 'row', r'return Ok\(\(\)\);'),
 ]
+ITEMS += [
+    # F31: the source handed to miette must be the text the locations refer to (no leading byte order mark)
+    dict(src='src/miette.rs', path='fn to_miette_report_with_formatter', id='to_miette_report_with_formatter#source', props=P, features=['miette'],
+         fragment=r'(let source = source\.strip_prefix[^;]*;\s*)?let sanitized_source = sanitize_terminal_snippet_preserve_len\(source\.to_owned\(\)\);',
+         fragment_flags='S',
+         wrapper="fn miette_source_fragment(source: &str) -> String { let ghost source0 = source@; {FRAG} sanitized_source }",
+         rewrites=[(r"source\.strip_prefix\('\\u\{FEFF\}'\)\.unwrap_or\(source\)", 'str_strip_bom(source)', None, 'R8'),
+                   (r'source\.to_owned\(\)', 'str_to_owned(source)', 1, 'R8')],
+         proofs=[dict(before_re=r'let sanitized_source = ', label='C17:the_source_given_to_miette_is_the_text_without_a_leading_byte_order_mark_which_is_what_locations_refer_to',
+                      text="assert(source@ == (if source0.len() > 0 && source0[0] == '\\u{FEFF}' { source0.skip(1) } else { source0 }));")],
+         ensures=[('sanitised_copy', 'true')]),
+]
